@@ -180,3 +180,66 @@ Theorem C01_encode_exact_translated : forall t, wf t -> forall fuel dep rest, (l
   run_flat (gen_text fuel dep (tag_id t)) (payload t ++ rest) = FOk tt rest.
 Proof. exact encode_exact_translated. Qed.
 Print Assumptions C01_encode_exact_translated.
+
+(* ------------------------------------------------------------------------------------------------------------ *)
+(* THE ENCODER HALF over the TRANSLATED source (Proofs/C01_enc_tie.v; translation: tools/gotrans/c02.go -> Gen/C02gen.v,
+   property C02).  C01's small Go value universe - bool, sized integers, floats, strings, typed slices of these to any
+   depth - is embedded into C02's (C01_enc_tie.emb_ty / emb_val); on it C01's hand model of nbt/encode.go agrees with
+   C02's, whose pieces are interpretations of tables and step lists translated from nbt/encode.go on every run. *)
+From GoMC Require Model.C02 Model.C02_syntax Gen.C02gen Proofs.C02_tie Proofs.C02_tie2 Proofs.C02_tie3 Proofs.C01_enc_tie.
+
+(* whatever C01's model of Encode / writeValue emits for such a value is doc fmt name tr for a WELL-FORMED tree tr: the
+   root tag is the one the translated getTagType pieces select, the header is what the translated statements of Encode
+   write, the payload what the translated clauses of writeValue write (C02.enc); and the decoder's reads give tr back from
+   these bytes, anything following left unread *)
+Theorem C01_encode_wellformed_translated : forall f name v T X bs,
+  C01_enc_tie.typed (ty_of v) v = true -> val_ok v = true -> C01_enc_tie.sized (ty_of v) = true ->
+  C01_enc_tie.emb_ty (ty_of v) = Some T -> C01_enc_tie.emb_val v = Some X -> marshal f name v = MOk bs ->
+  exists tr, C02.enc T X = C02.TOk tr /\ wf tr /\ tag_id tr = C02.get_tag T X /\ get_tag v = tag_id tr /\
+    bs = doc f name tr /\
+    (C02.name_too_long name = false ->
+     C02_syntax.run_encode C02gen.c02_encode_steps false (match f with Net => true | File => false end) C02_tie3.wtag
+                (Z.of_N (tag_id tr)) (C02_tie3.zs name) (Some (C02_tie3.zs (payload tr))) [] false = Some (C02_tie3.zs bs)) /\
+    (name_ok name = true -> nest_ok tr -> forall rest fuel, (length (payload tr) < fuel)%nat ->
+       run_flat (Decode f (C02.dec_tree fuel)) (bs ++ rest) = FOk (root_name f name, tr) rest).
+Proof. exact C01_enc_tie.encode_wellformed_translated. Qed.
+(* the two hand models agree on the tag and on the bytes of every embedded value (errors included) *)
+Theorem C01_encode_models_agree : forall v t T X,
+  C01_enc_tie.typed t v = true -> val_ok v = true -> C01_enc_tie.emb_ty t = Some T -> C01_enc_tie.emb_val v = Some X ->
+  get_tag v = C02.get_tag T X /\ C01_enc_tie.same_out (C02.enc T X) (write_value v (get_tag v)).
+Proof. intros v t T X. exact (C01_enc_tie.equiv_all v t T X). Qed.
+(* the documented tag mapping through the translated tables: a typed slice gets the array tag the translated
+   `switch elemType` of getTagType assigns to the tag of its first element (of its element type when empty) - byte, int32
+   and int64 elements give TagByteArray / TagIntArray / TagLongArray, everything else TagList; a scalar gets the tag the
+   translated `switch vk.Kind()` of getTagTypeByType assigns to its kind *)
+Theorem C01_encode_tag_mapping_translated : forall v T X,
+  C01_enc_tie.typed (ty_of v) v = true -> val_ok v = true -> C01_enc_tie.emb_ty (ty_of v) = Some T -> C01_enc_tie.emb_val v = Some X ->
+  get_tag v = C02.get_tag T X /\
+  (forall e l, v = VSlice e l -> forall E xs, T = C02.YSlice E -> X = C02.GvList xs ->
+     Z.of_N (get_tag v) = C02_tie.elem_tag (Z.of_N (match xs with x :: _ => C02.get_tag E x | [] => C02.tag_by_ty E end))) /\
+  ((forall e l, v <> VSlice e l) -> Z.of_N (get_tag v) = C02_tie.kind_tag (C02_tie.kind_of T)).
+Proof. exact C01_enc_tie.encode_tag_mapping_translated. Qed.
+(* structs (not in C01's universe; C02's): the documented omitempty / "-" / list rules, from the translated field loop of
+   writeValue, the translated isEmptyValue table and the translated parsing of the `nbt` struct tag *)
+Theorem C01_encode_omitempty_translated :
+  (forall encf encl f fr x vr acc ea, C02.f_skip (fst f) = false ->
+     C02.fields_enc encf encl (f :: fr) (x :: vr) acc =
+     match C02_syntax.run_field C02gen.c02_field_loop
+             (C02_syntax.FObs false (C02.f_omit (fst f)) (C02.is_empty (snd f) x) ea (Z.of_N (C02.get_tag (snd f) x))
+                              (C02.f_list (fst f)) (C02.name_too_long (C02.f_name (fst f)))) 0%Z false false with
+     | C02_syntax.FSkip => C02.fields_enc encf encl fr vr acc
+     | C02_syntax.FErr => C02.TErr
+     | C02_syntax.FWrite typ ov =>
+         C02.tbind (if ov then encl (snd f) x else encf (snd f) x)
+                   (fun tr => C02.fields_enc encf encl fr vr ((C02.f_name (fst f), tr) :: acc))
+     end) /\
+  (forall t v, C02.has_type t v = true ->
+     C02.is_empty t v = match C02_syntax.lookup_kind C02gen.c02_empty_table (C02_tie.kind_of t) with
+                        | Some e => C02_tie2.eval_etest e v | None => false end) /\
+  (forall tag, C02_syntax.run_tag C02gen.c02_tag_skip C02gen.c02_tag_sep C02gen.c02_tag_opts tag = C02_syntax.parse_tag_model tag).
+Proof. split; [exact C02_tie2.field_loop_ok|split; [exact C02_tie2.empty_table_ok|exact C02_tie2.tag_parse_ok]]. Qed.
+
+Print Assumptions C01_encode_wellformed_translated.
+Print Assumptions C01_encode_models_agree.
+Print Assumptions C01_encode_tag_mapping_translated.
+Print Assumptions C01_encode_omitempty_translated.
